@@ -56,6 +56,7 @@ type retRec struct {
 }
 
 type loopInfo struct {
+	entryState *State // program state when the loop was entered (for entry(e) in invariants)
 	header  *ssa.BasicBlock
 	body    map[*ssa.BasicBlock]bool
 	ordinal int
@@ -88,6 +89,8 @@ type Exec struct {
 	items    []string
 	itemBlk  []int // block (of the top-level function) an assertion belongs to; -1 = global
 	curBlk   int
+	rowDefs  map[string]string
+	heapAlc  map[string]string
 	anc      map[int]map[int]bool
 	obls     []*Obl
 	n        int
@@ -220,6 +223,11 @@ func (x *Exec) heap(st *State, name, sort string) string {
 		return nv
 	}
 	v0 := name + "!0"
+	if !x.declared[v0] && strings.HasSuffix(name, ".arr") && sort == "(Array Int Int)" && strings.HasPrefix(name, "H$") {
+		// well-typed entry heap: every backing array referenced from a slice-typed field existed at entry
+		x.declare(v0, sort)
+		x.emitGlobal(fmt.Sprintf("(assert (forall ((o Int)) (! (and (<= 0 (select %s o)) (<= (select %s o) alc!0)) :pattern ((select %s o)))))", v0, v0, v0))
+	}
 	x.declare(v0, sort)
 	x.eng.heapSorts[name] = sort
 	st.heap[name] = v0
@@ -233,6 +241,27 @@ func (x *Exec) setHeap(st *State, name, sort, term string) {
 	x.declare(v, sort)
 	x.emit(fmt.Sprintf("(assert (= %s %s))", v, term))
 	st.heap[name] = v
+	if st.alc != "" {
+		if x.heapAlc == nil {
+			x.heapAlc = map[string]string{}
+		}
+		x.heapAlc[v] = st.alc
+	}
+}
+
+// allocBound: an upper bound for every reference stored in the current version of a heap: the allocation
+// counter at the time that version was created (entry versions: the entry counter), else the current one.
+func (x *Exec) allocBound(st *State, heapName string) string {
+	v, ok := st.heap[heapName]
+	if ok {
+		if strings.HasSuffix(v, "!0") {
+			return "alc!0"
+		}
+		if a, ok := x.heapAlc[v]; ok {
+			return a
+		}
+	}
+	return st.alc
 }
 
 func (x *Exec) havocHeap(st *State, name string) {
@@ -284,7 +313,23 @@ func (x *Exec) readComp(st *State, loc *Loc, c comp) string {
 	case LElem:
 		h := x.heap(st, name, arr2Sort(c.sort))
 		if loc.Off != "" {
-			return sx(x.elFn(c.sort), sx("select", h, loc.Arr), loc.Off, loc.Rel)
+			row := sx("select", h, loc.Arr)
+			if !strings.Contains(row, "$q") {
+				// name the (ground) row so that it exists as a ground term for E-matching even when the
+				// access itself sits under a quantifier
+				key := fmt.Sprintf("%d|%s", x.curBlk, row)
+				if x.rowDefs == nil {
+					x.rowDefs = map[string]string{}
+				}
+				if n, ok := x.rowDefs[key]; ok {
+					row = n
+				} else {
+					n := x.define("row", "(Array Int "+c.sort+")", row)
+					x.rowDefs[key] = n
+					row = n
+				}
+			}
+			return sx(x.elFn(c.sort), row, loc.Off, loc.Rel)
 		}
 		return sx("select", sx("select", h, loc.Arr), loc.Idx)
 	}
@@ -369,11 +414,14 @@ func (x *Exec) load(st *State, loc *Loc, t types.Type) Val {
 			x.assumeTyped("true", t, v)
 		}
 		if kindOf(t) == KPtr && !strings.Contains(vv.T, "$q") && st.alc != "" {
-			x.assume("true", sx("<=", vv.T, st.alc))
+			x.assume("true", sx("<=", vv.T, x.allocBound(st, loc.Base)))
 		}
 	case SliceV:
 		if !strings.Contains(vv.Arr+vv.Len, "$q") {
 			x.assumeTyped("true", t, v)
+			if st.alc != "" {
+				x.assume("true", sx("<=", vv.Arr, x.allocBound(st, loc.Base+".arr")))
+			}
 		}
 	}
 	return v
@@ -1156,7 +1204,7 @@ func (x *Exec) instr(fr *Frame, b *ssa.BasicBlock, st *State, reach string, ins 
 			if kindOf(et) == KStruct {
 				x.set(fr, i, Sc{T: x.structAddr(loc), S: "Int"})
 			} else {
-				x.declareFun("eptr", "(Int Int) Int")
+				x.declEptr()
 				x.set(fr, i, Sc{T: sx("eptr", loc.Arr, loc.Idx), S: "Int", Loc: loc})
 			}
 		case Sc: // pointer to array
@@ -1172,7 +1220,7 @@ func (x *Exec) instr(fr *Frame, b *ssa.BasicBlock, st *State, reach string, ins 
 			if kindOf(et) == KStruct {
 				x.set(fr, i, Sc{T: x.structAddr(loc), S: "Int"})
 			} else {
-				x.declareFun("eptr", "(Int Int) Int")
+				x.declEptr()
 				x.set(fr, i, Sc{T: sx("eptr", loc.Arr, loc.Idx), S: "Int", Loc: loc})
 			}
 		default:
@@ -1689,6 +1737,10 @@ func (x *Exec) convert(fr *Frame, st *State, reach string, i *ssa.Convert) Val {
 		if ok1 && ok2 && flo.Cmp(tlo) >= 0 && fhi.Cmp(thi) <= 0 {
 			return sc
 		}
+		if ok2 {
+			// guarded form: the common in-range case stays linear
+			return I(sx("ite", sx("and", sx("<=", bigNum(tlo), sc.T), sx("<=", sc.T, bigNum(thi))), sc.T, wrapTerm(to, sc.T, false)))
+		}
 		return I(wrapTerm(to, sc.T, false))
 	case fk == KStr && tk == KSlice: // []byte(s)
 		x.declSort("Str")
@@ -2008,4 +2060,14 @@ func litInt(s string) (int64, bool) {
 		return n, true
 	}
 	return 0, false
+}
+
+// eptr(arr, i): address of element i of a backing array (pointer into an array). Such addresses are
+// negative: they never coincide with the reference of a separately allocated object.
+func (x *Exec) declEptr() {
+	if x.declared["eptr"] {
+		return
+	}
+	x.declareFun("eptr", "(Int Int) Int")
+	x.emitGlobal("(assert (forall ((a Int) (i Int)) (! (< (eptr a i) 0) :pattern ((eptr a i)))))")
 }
